@@ -55,6 +55,9 @@ type event struct {
 	NoModel bool         `json:"nomodel"`
 	// the key's descriptor names a hash function the library does not implement: judged as a counter only
 	CounterOnly bool `json:"counteronly"`
+	// Sign: the signatures returned earlier by this object still hold the bytes they held when returned
+	// Drop: what the object's getters returned (slices) is unchanged after the object was dropped and collected
+	KeptSame bool `json:"keptsame"`
 }
 
 var (
@@ -77,6 +80,8 @@ type keyObj struct {
 	hf   xmss.HashFunction
 	tree *xproj.Tree
 	tr   *trace.Buf
+	// the signatures this object returned, kept by the caller exactly as returned (same slices), with copies
+	kept, keptCopy [][]byte
 }
 
 // msgBytes: message number m; every seventh message is the empty message
@@ -148,7 +153,7 @@ func buildTree(x *xmss.XMSS) *xproj.Tree {
 }
 
 func (k *keyObj) base(ev string) event {
-	return event{Ev: ev, K: k.id, Fam: k.fam, H: k.h, Hf: int(k.hf), Idx: int(k.x.GetIndex()), Pkid: pkid(k.x), RawSame: true}
+	return event{Ev: ev, K: k.id, Fam: k.fam, H: k.h, Hf: int(k.hf), Idx: int(k.x.GetIndex()), Pkid: pkid(k.x), RawSame: true, KeptSame: true}
 }
 
 func (k *keyObj) emitState(e *event) {
@@ -204,9 +209,29 @@ func (k *keyObj) clone() *keyObj {
 }
 
 func (k *keyObj) drop(withFam bool) {
-	e := event{Ev: "Drop", K: k.id, Fam: -1}
+	e := event{Ev: "Drop", K: k.id, Fam: -1, KeptSame: true}
 	if withFam {
 		e.Fam = k.fam
+	}
+	// what the getters returned belongs to the caller: dropping the object (and a garbage collection, which runs
+	// finalizers) must not change it
+	got := [][]byte{k.x.GetSK(), k.x.GetRoot(), k.x.GetPKSeed()}
+	pk := k.x.GetPK()
+	var cp [][]byte
+	for _, g := range got {
+		cp = append(cp, append([]byte{}, g...))
+	}
+	k.x = nil
+	runtime.GC()
+	runtime.GC()
+	time.Sleep(2 * time.Millisecond)
+	for i := range got {
+		if string(got[i]) != string(cp[i]) {
+			e.KeptSame = false
+		}
+	}
+	if len(got[1]) == 32 && string(got[1]) != string(pk[3:35]) {
+		e.KeptSame = false
 	}
 	k.tr.Emit(e)
 }
@@ -225,6 +250,15 @@ func (k *keyObj) sign(m int) ([]byte, string) {
 	e.Res = res
 	e.RawSame = xproj.RawEqual(&before, &after)
 	k.emitState(&e)
+	for i := range k.kept {
+		if string(k.kept[i]) != string(k.keptCopy[i]) {
+			e.KeptSame = false
+		}
+	}
+	if res == "ok" && len(k.kept) < 40 {
+		k.kept = append(k.kept, sig)
+		k.keptCopy = append(k.keptCopy, append([]byte{}, sig...))
+	}
 	if res == "ok" {
 		si := &sigInfo{Len: len(sig), Verify: "na", VerifyOther: "na"}
 		if len(sig) >= 4+32*k.h {
@@ -794,7 +828,7 @@ func plan(h int, hf xmss.HashFunction, path string, r *rand.Rand, tr *trace.Buf)
 			for _, o := range objs {
 				o.drop(false)
 			}
-			b.Emit(event{Ev: "Drop", K: -1, Fam: fam})
+			b.Emit(event{Ev: "Drop", K: -1, Fam: fam, KeptSame: true})
 		}()
 	}
 	wg.Wait()
